@@ -132,7 +132,7 @@ def _pair_frames(geo_t, geo_r, E, F, same_grid):
 def scalar_form(test_shape, trial_shape):
     """phi_f(x) psi_g(y)"""
 
-    def form(geo_t, geo_r, E, F, lx, ly, nm_t, nm_r):
+    def form(geo_t, geo_r, E, F, lx, ly, nm_t, nm_r, x=None, y=None, par=None):
         phi = shape_values(test_shape, *lx)
         psi = shape_values(trial_shape, *ly)
         return [[phi[f] * psi[g] for g in range(len(psi))] for f in range(len(phi))]
@@ -149,11 +149,76 @@ def surface_curls(geo, E, nm):
     return [[(v[a][i] - v[b][i]) / J * nm for i in range(3)] for a, b in pairs]
 
 
-def curl_curl_form(geo_t, geo_r, E, F, lx, ly, nm_t, nm_r):
+def curl_curl_form(geo_t, geo_r, E, F, lx, ly, nm_t, nm_r, x=None, y=None, par=None):
     """curl_Gamma phi_f . curl_Gamma psi_g  (P1 x P1, constant on the element pair)"""
     ct = geo_t.curls(E, nm_t) if hasattr(geo_t, "curls") else surface_curls(geo_t, E, nm_t)
     cr = geo_r.curls(F, nm_r) if hasattr(geo_r, "curls") else surface_curls(geo_r, F, nm_r)
     return [[sum(ct[f][i] * cr[g][i] for i in range(3)) for g in range(3)] for f in range(3)]
+
+
+def _wavenumber(par):
+    return par[0] + S.I() * par[1] if isinstance(par[0], S.Sym) or isinstance(par[1], S.Sym) else complex(par[0], par[1])
+
+
+def helmholtz_hyp_form(geo_t, geo_r, E, F, lx, ly, nm_t, nm_r, x=None, y=None, par=None):
+    """curl phi_f . curl psi_g - k^2 (n_x . n_y) phi_f psi_g,  k = par[0] + i par[1]"""
+    cc = curl_curl_form(geo_t, geo_r, E, F, lx, ly, nm_t, nm_r)
+    phi = shape_values("p1_discontinuous", *lx)
+    psi = shape_values("p1_discontinuous", *ly)
+    nn = sum(a * b for a, b in zip(geo_t.normal(E), geo_r.normal(F))) * nm_t * nm_r
+    k = _wavenumber(par)
+    return [[cc[f][g] - k * k * nn * phi[f] * psi[g] for g in range(3)] for f in range(3)]
+
+
+def modified_hyp_form(geo_t, geo_r, E, F, lx, ly, nm_t, nm_r, x=None, y=None, par=None):
+    """curl phi_f . curl psi_g + w^2 (n_x . n_y) phi_f psi_g,  w = par[0]"""
+    cc = curl_curl_form(geo_t, geo_r, E, F, lx, ly, nm_t, nm_r)
+    phi = shape_values("p1_discontinuous", *lx)
+    psi = shape_values("p1_discontinuous", *ly)
+    nn = sum(a * b for a, b in zip(geo_t.normal(E), geo_r.normal(F))) * nm_t * nm_r
+    return [[cc[f][g] + par[0] * par[0] * nn * phi[f] * psi[g] for g in range(3)] for f in range(3)]
+
+
+def _rwg(geo, E, f, xi):
+    """edge-length-scaled Piola image l_f J ref_f(xi) / |J| and its divergence 2 l_f / |J|"""
+    from specs import maxwell as MS
+
+    v = MS.rwg_times_jac(geo, E, f, xi[0], xi[1])
+    J = geo.int_elem(E)
+    return [c / J for c in v], 2 * MS.edge_length(geo, E, f) / J
+
+
+def maxwell_efield_form(geo_t, geo_r, E, F, lx, ly, nm_t, nm_r, x=None, y=None, par=None):
+    """-ik phi_f . psi_g - (1/(ik)) div phi_f div psi_g   (phi, psi the edge-length-scaled Piola images of the reference RWG functions)"""
+    k = _wavenumber(par)
+    ik = (S.I() if isinstance(k, S.Sym) else 1j) * k
+    out = []
+    for f in range(3):
+        pf, df = _rwg(geo_t, E, f, lx)
+        row = []
+        for g in range(3):
+            pg, dg = _rwg(geo_r, F, g, ly)
+            row.append(-ik * sum(a * b for a, b in zip(pf, pg)) - df * dg / ik)
+        out.append(row)
+    return out
+
+
+def maxwell_mfield_form(geo_t, geo_r, E, F, lx, ly, nm_t, nm_r, x=None, y=None, par=None):
+    """(x - y) . (phi_f x psi_g) (ikr - 1)/r^2   ( = grad_x G . (phi x psi) / G )"""
+    k = _wavenumber(par)
+    ik = (S.I() if isinstance(k, S.Sym) else 1j) * k
+    d = [x[i] - y[i] for i in range(3)]
+    r = np.sqrt(d[0] * d[0] + d[1] * d[1] + d[2] * d[2])
+    out = []
+    for f in range(3):
+        pf, _ = _rwg(geo_t, E, f, lx)
+        row = []
+        for g in range(3):
+            pg, _ = _rwg(geo_r, F, g, ly)
+            cr = [pf[1] * pg[2] - pf[2] * pg[1], pf[2] * pg[0] - pf[0] * pg[2], pf[0] * pg[1] - pf[1] * pg[0]]
+            row.append(sum(a * b for a, b in zip(d, cr)) * (ik * r - 1) / (r * r))
+        out.append(row)
+    return out
 
 
 def local_integrals(geo_t, geo_r, E, F, same_grid, test_shape, trial_shape, nm_t, nm_r, K, par, regular_rule, duffy, form=None):
@@ -177,7 +242,7 @@ def local_integrals(geo_t, geo_r, E, F, same_grid, test_shape, trial_shape, nm_t
             y = geo_r.point(ff, s2, t2, F)
             lx = geo_t.local_coords(E, fe, s1, t1)
             ly = geo_r.local_coords(F, ff, s2, t2)
-            coef = form(geo_t, geo_r, E, F, lx, ly, nm_t, nm_r)
+            coef = form(geo_t, geo_r, E, F, lx, ly, nm_t, nm_r, x, y, par)
             if out is None:
                 out = np.empty((len(coef), len(coef[0])), dtype=object)
                 out.fill(0)
